@@ -265,6 +265,49 @@ theorem failed_changes_nothing (ord : List Group → List Group) (vals : List Va
 
 /-! ### what the bridge minted is pegged -/
 
+/-- ethbridge InitGenesis registers the genesis peggy list entry by entry through AddPeggyToken (regenerated fact) -/
+theorem facts_init_genesis :
+    BridgeConsts.ethbridgeInitGenesisCalls = ["SetCethReceiverAccount", "AddPeggyToken", "SetBlacklistAddress", "SetPause", "SetPause"] := by
+  decide
+
+theorem foldl_addPeggy_keeps (l : List String) (p : List String) (d : String) (h : p.contains d = true) :
+    (l.foldl addPeggy p).contains d = true := by
+  induction l generalizing p with
+  | nil => exact h
+  | cons a l ih => exact ih (addPeggy p a) ((addPeggy_spec p a).2.1 d h)
+
+/-- Every token of a genesis peggy list is pegged after InitGenesis, in whatever order the list names them: its lock is
+    refused and its burn is not refused as "native token". -/
+theorem genesis_tokens_pegged (s : BState) (l : List String) (d : String) (hd : d ∈ l) :
+    (initGenesisPeggy s l).peggy.contains d = true ∧
+    (∀ pm : PegMsg, pm.symbol = d → (∃ f, lock (initGenesisPeggy s l) pm = .error f) ∧
+      burn (initGenesisPeggy s l) pm ≠ .error (.err .native)) := by
+  have hin : (initGenesisPeggy s l).peggy.contains d = true := by
+    unfold initGenesisPeggy
+    simp only
+    induction l generalizing s with
+    | nil => simp at hd
+    | cons a l ih =>
+      simp only [List.foldl_cons]
+      rcases List.mem_cons.mp hd with e | e
+      · subst e
+        exact foldl_addPeggy_keeps l _ _ (addPeggy_spec s.peggy d).1
+      · exact ih { s with peggy := addPeggy s.peggy a } e
+  refine ⟨hin, fun pm hsym => ⟨?_, ?_⟩⟩
+  · cases hl : lock (initGenesisPeggy s l) pm with
+    | error f => exact ⟨f, rfl⟩
+    | ok r =>
+      have := native_only_lock _ r.1 pm r.2 hl
+      rw [hsym, hin] at this
+      cases this
+  · intro hb
+    have := burn_native_refusal hb
+    rw [hsym, hin] at this
+    cases this
+
+example : (initGenesisPeggy BState.init ["ceth", "cusdt", "cdai"]).peggy = ["ceth", "cusdt", "cdai"] := by decide
+
+
 /-- After an accepted claim that reports SUCCESS, the stored peggy-token list is the old list plus exactly the credited
     denomination `"c" ++ symbol` (exact string) for a lock claim, and unchanged for a burn claim (`peggyRegOK` is also
     evaluated by the driver on the implementation's lists). -/
